@@ -76,7 +76,7 @@ func genLockCase(t *rapid.T) *Case {
 	var ops []Op
 	for i := 0; i < n; i++ {
 		// S = actor*2+slot (actor 0 = this process, actor 1 = child process), Key = directory layout 0..2
-		op := Op{S: rapid.IntRange(0, 3).Draw(t, "handle"), Key: rapid.IntRange(0, 2).Draw(t, "layout")}
+		op := Op{S: rapid.IntRange(0, 3).Draw(t, "handle"), Key: rapid.IntRange(0, 3).Draw(t, "layout")}
 		switch rapid.IntRange(0, 4).Draw(t, "kind") {
 		case 0, 1:
 			op.K = "open_rw"
@@ -102,14 +102,15 @@ func ExecuteLocks(t *testing.T, c *Case, keep bool) (out Outcome) {
 	}
 	defer os.RemoveAll(root)
 	// layouts: 0 = Dir==ValueDir (A), 1 = Dir A + ValueDir B (shares A with layout 0), 2 = Dir C + ValueDir B (shares B with layout 1)
-	A, B, C := filepath.Join(root, "A"), filepath.Join(root, "B"), filepath.Join(root, "C")
-	layouts := [][2]string{{A, A}, {A, B}, {C, B}}
+	// 3 = Dir D + ValueDir B: a second database whose value directory is the one of layout 2
+	A, B, C, D := filepath.Join(root, "A"), filepath.Join(root, "B"), filepath.Join(root, "C"), filepath.Join(root, "D")
+	layouts := [][2]string{{A, A}, {A, B}, {C, B}, {D, B}}
 	// create the databases first (read-only opens need an existing one)
 	for _, l := range layouts {
 		os.MkdirAll(l[0], 0o755)
 		os.MkdirAll(l[1], 0o755)
 	}
-	for _, l := range [][2]string{{A, A}, {C, B}} {
+	for _, l := range [][2]string{{A, A}, {C, B}, {D, B}} {
 		db, err := badger.Open(lockOpts(l[0], l[1], false))
 		if err != nil {
 			out.Harness = "initial open: " + err.Error()
@@ -167,7 +168,7 @@ func ExecuteLocks(t *testing.T, c *Case, keep bool) (out Outcome) {
 	}
 	for i, op := range c.Clients[0] {
 		h := op.S
-		l := layouts[op.Key%3]
+		l := layouts[op.Key%4]
 		dirs := []string{l[0]}
 		if l[1] != l[0] {
 			dirs = append(dirs, l[1])
@@ -178,10 +179,10 @@ func ExecuteLocks(t *testing.T, c *Case, keep bool) (out Outcome) {
 				continue
 			}
 			ro := op.K == "open_ro"
-			if ro && op.Key%3 == 1 {
+			if ro && op.Key%4 == 1 {
 				continue // layout 1 (Dir A + ValueDir B) is not a database of its own: read-only needs an existing one
 			}
-			if !ro && op.Key%3 == 1 {
+			if !ro && op.Key%4 == 1 {
 				continue // writing a second database into A/B would corrupt the others; the lock cases are covered by 0 and 2
 			}
 			why := conflict(dirs, ro)
@@ -204,11 +205,11 @@ func ExecuteLocks(t *testing.T, c *Case, keep bool) (out Outcome) {
 			out.Stats.Checks++
 			okExpected := why == ""
 			if okExpected && res != "ok" {
-				out.Viol = &Violation{Props: []string{"C35"}, Rule: "open-refused", Msg: fmt.Sprintf("op %d: handle %d open(%s, layout %d) failed although nobody holds a conflicting lock: %s", i, h, op.K, op.Key%3, res)}
+				out.Viol = &Violation{Props: []string{"C35"}, Rule: "open-refused", Msg: fmt.Sprintf("op %d: handle %d open(%s, layout %d) failed although nobody holds a conflicting lock: %s", i, h, op.K, op.Key%4, res)}
 				goto done
 			}
 			if !okExpected && res == "ok" {
-				out.Viol = &Violation{Props: []string{"C35"}, Rule: "second-opener-admitted", Msg: fmt.Sprintf("op %d: handle %d open(%s, layout %d) succeeded although %s", i, h, op.K, op.Key%3, why)}
+				out.Viol = &Violation{Props: []string{"C35"}, Rule: "second-opener-admitted", Msg: fmt.Sprintf("op %d: handle %d open(%s, layout %d) succeeded although %s", i, h, op.K, op.Key%4, why)}
 				goto done
 			}
 			if res == "ok" {
